@@ -1,6 +1,7 @@
 import PsaDhcp.Model.Bytes
 import PsaDhcp.Model.Dhcp
 import PsaDhcp.Model.Client
+import PsaDhcp.Model.Sanitize
 /-
 Target language of the Go→Lean translator (`/verif/xlate`): the handful of Go primitives that the
 translated functions use, with Go's partiality made explicit.
@@ -209,6 +210,82 @@ def splitAux (sep : Bytes) : Nat → Bytes → Bytes → List Bytes
     else splitAux sep n rest (acc ++ [c])
 
 def stringsSplit (s sep : Bytes) : List Bytes := splitAux sep (s.length + 1) s []
+
+/-! `regexp`: the only patterns the code compiles are one character class, either free (`[class]`, used with
+`ReplaceAllString`) or anchored and repeated (`^[class]+$`, used with `MatchString`).  Go's engine walks the string rune
+by rune (`utf8.DecodeRune`: an invalid byte is U+FFFD of width 1). -/
+structure Regex where
+  neg : Bool
+  ranges : List (Nat × Nat)
+  whole : Bool
+deriving DecidableEq, Repr
+
+/-- Code point of the rune at the head of `s` (U+FFFD for an invalid encoding) — widths by `runeWidth`. -/
+def runeAt (s : Bytes) : Nat :=
+  let w := runeWidth s
+  if ¬ w.2 then 0xFFFD
+  else match w.1, s with
+    | 1, b0 :: _ => b0.toNat
+    | 2, b0 :: b1 :: _ => (b0.toNat % 32) * 64 + b1.toNat % 64
+    | 3, b0 :: b1 :: b2 :: _ => (b0.toNat % 16) * 4096 + (b1.toNat % 64) * 64 + b2.toNat % 64
+    | 4, b0 :: b1 :: b2 :: b3 :: _ => (b0.toNat % 8) * 262144 + (b1.toNat % 64) * 4096 + (b2.toNat % 64) * 64 + b3.toNat % 64
+    | _, _ => 0xFFFD
+
+def Regex.matchesRune (re : Regex) (cp : Nat) : Bool :=
+  let inCls := re.ranges.any fun r => r.1 ≤ cp && cp ≤ r.2
+  if re.neg then !inCls else inCls
+
+def reReplaceAux (re : Regex) (repl : Bytes) : Nat → Bytes → Bytes
+  | 0, _ => []
+  | _, [] => []
+  | f + 1, b :: rest =>
+    let s := b :: rest
+    let w := (runeWidth s).1
+    if re.matchesRune (runeAt s) then repl ++ reReplaceAux re repl f (s.drop w)
+    else s.take w ++ reReplaceAux re repl f (s.drop w)
+
+/-- `re.ReplaceAllString(s, repl)` for a free single-class pattern: every matching rune becomes `repl`. -/
+def reReplaceAll (re : Regex) (s repl : Bytes) : Bytes := reReplaceAux re repl s.length s
+
+def reAllAux (re : Regex) : Nat → Bytes → Bool
+  | 0, s => s.isEmpty
+  | _, [] => true
+  | f + 1, b :: rest =>
+    let s := b :: rest
+    re.matchesRune (runeAt s) && reAllAux re f (s.drop (runeWidth s).1)
+
+/-- `re.MatchString(s)` for `^[class]+$`: non-empty and every rune in the class. -/
+def reMatch (re : Regex) (s : Bytes) : Bool := !s.isEmpty && reAllAux re s.length s
+
+/-- `net.IP.String()`: `<nil>` for nil, dotted decimal for the IPv4 forms; other values (IPv6 text form, `?`+hex) are
+not produced by the code paths translated here and are left uninterpreted. -/
+opaque ipStringOther : Bytes → Bytes
+def ipString (ip : Bytes) : Bytes :=
+  if ip.isEmpty then PsaDhcp.ipString none
+  else match Ip4.ofBytes? (to4 ip) with
+    | some i => PsaDhcp.ipString (some i)
+    | none => ipStringOther ip
+
+/-- `net.IPMask.String()`: `<nil>` for the empty mask, else lower-case hex of every byte. -/
+def maskString (m : Bytes) : Bytes :=
+  if m.isEmpty then PsaDhcp.str "<nil>" else (m.map fun b => [hexNib (b.toNat / 16), hexNib (b.toNat % 16)]).flatten
+
+/-- `strings.Join(l, sep)` -/
+def stringsJoin : List Bytes → Bytes → Bytes
+  | [], _ => []
+  | [x], _ => x
+  | x :: rest, sep => x ++ sep ++ stringsJoin rest sep
+
+/-- `strings.SplitN(s, sep, 2)` for a one-byte separator: split at the first occurrence. -/
+def stringsSplitN2 (s sep : Bytes) : List Bytes :=
+  match sep with
+  | [c] => (match s.span (· != c) with
+            | (a, []) => [a]
+            | (a, _ :: b) => [a, b])
+  | _ => [s]
+
+/-- `int(d.Seconds())` (see `durSecondsU32`). -/
+def durSecondsInt (d : Int) : Int := Int.tdiv d 1000000000
 
 /-- A socket handle: what is read from and written to it goes through the environment. -/
 abbrev Sock := Unit
